@@ -25,6 +25,7 @@ var c02Kinds = []string{
 	"future",     // +1 linked, time beyond now+drift
 	"typesoft",   // +1 linked and well-formed, but the header type's own Verify rejects it with a *VerifyError marked SoftFailure
 	"typeplain",  // +1 linked and well-formed, but the header type's own Verify rejects it with a plain error
+	"self",       // the previous element (the trusted header at position 0) itself, once more
 }
 
 type c02Case struct {
@@ -81,6 +82,8 @@ func buildC02(c c02Case, now time.Time) (tr *vk.H, in []*vk.H) {
 		case "typeplain":
 			h = mk(1)
 			prev.VerifyHook = func(_, _ *vk.H) error { return errors.New("vk: type-level rejection") }
+		case "self":
+			h = prev
 		}
 		if h != nil {
 			h.Hash()
@@ -205,7 +208,7 @@ func TestC02(t *testing.T) {
 	defer run.Finish()
 	maxLen := vk.Pick(run, 4, 6)
 	run.Set("max_sequence_length", maxLen)
-	run.SetRule("every sequence of length 0..L over 12 per-position header kinds (valid next, skip, duplicate, lower, wrong chain, zero, bad link, bad signature, old time, future, rejected by the type's own Verify with a soft *VerifyError, rejected with a plain error) x {non-zero, zero} trusted; distinct by (first failing kind, failure position, length)")
+	run.SetRule("every sequence of length 0..L over 13 per-position header kinds (incl. the predecessor / trusted header itself once more) (valid next, skip, duplicate, lower, wrong chain, zero, bad link, bad signature, old time, future, rejected by the type's own Verify with a soft *VerifyError, rejected with a plain error) x {non-zero, zero} trusted; distinct by (first failing kind, failure position, length)")
 	run.Assume("reference = fold of the C01 reference with a rolling trusted header + adjacency for i>0")
 
 	var rc c02Case
